@@ -258,6 +258,13 @@ async def _build(case: dict, context, workflow, translator, dep: str, location):
         value = await _file(context, location, "payload-pipeline") if kind == "file" else 100
         ports = {"out": await source("out", value)}
         for i in range(shape["n"]):
+            if shape.get("sink") and i == shape["n"] - 1:
+                # an ExecuteStep WITHOUT output ports (its command only has side effects)
+                cmd = "lambda x : ('copy', 'primitive', 1)"
+                st = translator.get_execute_pipeline(command=cmd, deployment_names=[dep], input_ports=ports, outputs={},
+                                                     step_name=posixpath.join(posixpath.sep, f"s{i}"), workflow=workflow)
+                steps[f"/s{i}"] = st
+                return {}, steps
             st = stage(f"s{i}", ports, "out", "file" if kind == "file" else "primitive")
             ports = st.get_output_ports()
         return {"out": ports["out"]}, steps
